@@ -8,7 +8,7 @@ from vlib.runner import Violation, call
 
 PID = "C08"
 RULE = ("Hypothesis-generated clique covers: V <= 12 (quick) / 25 vertices numbered from 0 or 1, every vertex covered, "
-        "1..15 cliques with sizes from a generated size set within {2..10} (adjacent sizes, gaps of one or several, a "
+        "1..15 cliques with sizes from a generated size set within {1..10} (adjacent sizes, gaps of one or several, a "
         "single size), overlaps allowed; plus covers returned by EECC.get_EECC on generated graphs. Oracle: per-vertex "
         "counts per occurring size, relative-frequency table, clique-size profile identity, and sampling + generation "
         "with clique motifs of the reported sizes. Non-trivial = >= 2 distinct clique sizes; distinct = canonical JSON")
@@ -27,7 +27,8 @@ def cover_case(draw, tier):
                 "seed": draw(st.integers(0, 2 ** 31))}
     V = draw(st.integers(2, 12 if tier == "quick" else 25))
     base = draw(st.integers(0, 1))
-    sizes = draw(st.lists(st.integers(2, min(10, V)), min_size=1, max_size=4, unique=True))
+    # 1-cliques (isolated vertices listed as singletons, as they must be to keep the numbering contiguous) are legal
+    sizes = draw(st.lists(st.integers(1, min(10, V)), min_size=1, max_size=4, unique=True))
     nc = draw(st.integers(1, 15))
     cover = []
     for _ in range(nc):
@@ -82,7 +83,15 @@ def enumerated(tier, seed):
         [[0, 1, 2], [0, 3, 4], [0, 5], [1, 5], [2, 6], [3, 6], [4, 6], [6, 7]],
     ]
     n = 20000 if tier == "quick" else 100000
-    return [{"stat": True, "cover": c, "N": n, "seed": seed * 50 + i} for i, c in enumerate(covers)]
+    out = [{"stat": True, "cover": c, "N": n, "seed": seed * 50 + i} for i, c in enumerate(covers)]
+    # hub-heavy covers: one vertex lies in hundreds of cliques of one size (all triangles through vertex 0 of K_30,
+    # plus a ring of edges; a 300-edge star)
+    from itertools import combinations as _c
+    tri = [[0, a, b] for a, b in _c(range(1, 30), 2)] + [[i, i % 29 + 1] for i in range(1, 30)]
+    star = [[0, i] for i in range(1, 301)]
+    out.append({"cover": tri, "seed": seed})
+    out.append({"cover": [[v + 1 for v in c] for c in star], "seed": seed + 1})
+    return out
 
 
 def stat_check(case):
@@ -184,7 +193,7 @@ def check(case):
     got_profile = Counter(per_id.values())
     want_profile = Counter()
     for c, s in zip(cols, sizes):
-        if c:
+        if c and s >= 2:  # 1-cliques have no edges and therefore no rows / ids
             want_profile[s * (s - 1) // 2] += c // s
     if got_profile != want_profile:
         raise Violation("generate-profile", f"generated motifs by edge count {dict(got_profile)}, expected {dict(want_profile)}")
